@@ -1176,6 +1176,12 @@ func (c *MJMLComponent) checkChildrenForCondition(component Component, condition
 				return true
 			}
 		}
+	case *components.MJHeroComponent:
+		for _, child := range v.Children {
+			if condition(child) || c.checkChildrenForCondition(child, condition) {
+				return true
+			}
+		}
 	case *components.MJSocialComponent:
 		for _, child := range v.Children {
 			if condition(child) || c.checkChildrenForCondition(child, condition) {
